@@ -512,6 +512,9 @@ func (q *Query) Search(from Point) []Point {
 			if known, val := retCond(facts, v); known {
 				return val != neg, true
 			}
+			if val, ok := predicateFact(facts, v); ok {
+				return val != neg, true
+			}
 		}
 		return false, false
 	}
@@ -699,6 +702,19 @@ func (q *Query) Search(from Point) []Point {
 				}
 				if q.Assume != nil && !known {
 					if val, ok := q.Assume(pc); ok && val != want {
+						continue
+					}
+				}
+				if q.Facts && !known {
+					pv, pneg := pc, false
+					for {
+						u, ok := pv.(*ssa.UnOp)
+						if !ok || u.Op != token.NOT {
+							break
+						}
+						pneg, pv = !pneg, u.X
+					}
+					if val, ok := predicateFact(n.st, pv); ok && (val != pneg) != want {
 						continue
 					}
 				}
@@ -1195,3 +1211,110 @@ func RegisterCallers(funcs []*ssa.Function) {
 
 // CallersOf: the static call sites of f (after RegisterCallers).
 func CallersOf(f *ssa.Function) []*ssa.Call { return callersIndex[Origin(f)] }
+
+// predicateFact: the condition is a call g(x) of a one-parameter boolean function of the module whose argument is
+// known to equal a constant, and g is a pure test of its parameter against constants (isDerivedMethod(m)): the call
+// is evaluated with that constant.
+func predicateFact(facts *factState, v ssa.Value) (bool, bool) {
+	call, ok := v.(*ssa.Call)
+	if !ok || facts == nil || len(call.Call.Args) != 1 || call.Call.IsInvoke() {
+		return false, false
+	}
+	g := StaticCallee(&call.Call)
+	if g == nil || !IsLibrary(g) || len(g.Params) != 1 {
+		return false, false
+	}
+	cur, has := facts.eq[ValueKey(call.Call.Args[0])]
+	if !has {
+		return false, false
+	}
+	return EvalConstPredicate(Origin(g), cur)
+}
+
+// EvalConstPredicate evaluates a function that only compares its single parameter with constants (==, !=, &&, ||,
+// !) for the parameter value with constant key argKey; ok=false when the function does anything else.
+func EvalConstPredicate(g *ssa.Function, argKey string) (bool, bool) {
+	if g == nil || len(g.Blocks) == 0 || len(g.Params) != 1 {
+		return false, false
+	}
+	env := map[ssa.Value]string{g.Params[0]: argKey}
+	val := func(v ssa.Value) (string, bool) {
+		if c, ok := v.(*ssa.Const); ok {
+			return ConstKey(c), true
+		}
+		s, ok := env[v]
+		return s, ok
+	}
+	var prev *ssa.BasicBlock
+	b := g.Blocks[0]
+	for steps := 0; steps < 200; steps++ {
+		var next *ssa.BasicBlock
+		for _, in := range b.Instrs {
+			switch x := in.(type) {
+			case *ssa.Phi:
+				found := false
+				for i, p := range b.Preds {
+					if p == prev {
+						s, ok := val(x.Edges[i])
+						if !ok {
+							return false, false
+						}
+						env[x] = s
+						found = true
+					}
+				}
+				if !found {
+					return false, false
+				}
+			case *ssa.BinOp:
+				if x.Op != token.EQL && x.Op != token.NEQ {
+					return false, false
+				}
+				l, ok1 := val(x.X)
+				r, ok2 := val(x.Y)
+				if !ok1 || !ok2 {
+					return false, false
+				}
+				env[x] = fmt.Sprint((l == r) == (x.Op == token.EQL))
+			case *ssa.UnOp:
+				if x.Op != token.NOT {
+					return false, false
+				}
+				s, ok := val(x.X)
+				if !ok {
+					return false, false
+				}
+				env[x] = fmt.Sprint(s != "true")
+			case *ssa.If:
+				s, ok := val(x.Cond)
+				if !ok {
+					return false, false
+				}
+				if s == "true" {
+					next = b.Succs[0]
+				} else {
+					next = b.Succs[1]
+				}
+			case *ssa.Jump:
+				next = b.Succs[0]
+			case *ssa.Return:
+				if len(x.Results) != 1 {
+					return false, false
+				}
+				s, ok := val(x.Results[0])
+				if !ok || (s != "true" && s != "false") {
+					return false, false
+				}
+				return s == "true", true
+			case *ssa.DebugRef:
+			default:
+				return false, false
+			}
+		}
+		if next == nil {
+			return false, false
+		}
+		prev, b = b, next
+	}
+	return false, false
+}
